@@ -131,7 +131,7 @@ def validate_shard(args):
     with open(shard) as f:
         lines = f.read().splitlines()
     n = len(lines)
-    res = {"shard": shard, "events": n, "rejected": [], "known": [], "states": 0, "tool_error": None, "runs": 0}
+    res = {"shard": shard, "events": n, "rejected": [], "known": [], "drift": [], "states": 0, "tool_error": None, "runs": 0}
     if n == 0:
         return res
     start = 1
@@ -146,6 +146,8 @@ def validate_shard(args):
             return res
         for km in re.finditer(r'<<"KNOWN", "([^"]+)", (\d+)>>', out):
             res["known"].append((km.group(1), int(km.group(2))))
+        for dm in re.finditer(r'<<"DRIFT", (\d+)>>', out):
+            res["drift"].append(int(dm.group(1)))
         sm = None
         for sm in STATS_RE.finditer(out):
             pass
@@ -226,6 +228,19 @@ def check_apa_tables():
     # TAI TT GPST GST BDT QZSST = scales 0 1 5 6 7 8
     if gref != [refs[i] for i in (0, 1, 5, 6, 7, 8)]:
         raise ToolError("APA_Scales.tla: the literal scale offsets differ from the ones derived in Real.tla")
+
+
+def gen_class_strings(out_path):
+    """L2 for the tokenizer model: TLC prints every class string MC_Tokenizer explores (one edit of each skeleton, all
+    short strings); the harness concretises them and runs the real parser (event tok_model)."""
+    rc, out = tlc("MC_Tokenizer.tla", "Gen_Tokens.cfg", os.path.join(WORK, "meta_gentok_%d" % os.getpid()), workers=4, timeout=1200)
+    lines = sorted(set(m.group(1).replace('\\"', '"') for m in re.finditer(r'<<"CLS", "(.*)">>', out)))
+    if not lines:
+        sys.stderr.write(out[-2000:])
+        raise ToolError("L2 generation: TLC printed no class string from MC_Tokenizer")
+    with open(out_path, "w") as f:
+        f.write("\n".join(lines) + "\n")
+    return len(lines)
 
 
 def run_apalache(module, invs, expect_error=()):
